@@ -152,6 +152,8 @@ func (r *profRig) run(mode string, kill bool, args ...string) (*profRun, error) 
 	cmd.SysProcAttr = &syscall.SysProcAttr{Credential: &syscall.Credential{Uid: profilerUid, Gid: profilerUid}, Setpgid: true}
 	var so, se bytes.Buffer
 	cmd.Stdout, cmd.Stderr = &so, &se
+	cmd.Cancel = func() error { return syscall.Kill(-cmd.Process.Pid, syscall.SIGKILL) }
+	cmd.WaitDelay = 2 * time.Second
 	if err := cmd.Start(); err != nil {
 		return nil, err
 	}
@@ -234,20 +236,26 @@ func exactListing(r *gen.Rng, archName string, nsites, distinct int) (sitemodel.
 	l := sitemodel.Listing{Arch: archName}
 	var nums []int
 	fn := sitemodel.Func{Name: "main.f0(SB)"}
-	for i := 0; i < nsites; i++ {
+	// every distinct number at least once, the rest duplicates; shuffled, so that first
+	// appearances are spread over the whole listing (a truncated prefix then misses some)
+	var seq []int
+	for i := 0; i < nsites && len(pool) > 0; i++ {
+		if i < len(pool) {
+			seq = append(seq, pool[i])
+		} else {
+			seq = append(seq, pool[r.Intn(len(pool))])
+		}
+	}
+	for i := len(seq) - 1; i > 0; i-- {
+		j := r.Intn(i + 1)
+		seq[i], seq[j] = seq[j], seq[i]
+	}
+	for i := 0; i < len(seq); i++ {
 		if len(fn.Items) >= 1+r.Intn(6) {
 			l.Funcs = append(l.Funcs, fn)
 			fn = sitemodel.Func{Name: fmt.Sprintf("main.f%d(SB)", len(l.Funcs))}
 		}
-		var n int
-		if i < len(pool) {
-			n = pool[i] // every distinct number at least once, in order of first appearance
-		} else if len(pool) > 0 {
-			n = pool[r.Intn(len(pool))]
-		}
-		if len(pool) == 0 {
-			break
-		}
+		n := seq[i]
 		it := sitemodel.Item{Kind: sitemodel.RawSite, Num: n, Hex: r.Intn(2) == 0, Instr: trig, Reg: "AX"}
 		if r.Intn(3) == 0 {
 			it = sitemodel.Item{Kind: sitemodel.WrapperSite, Num: n, Hex: r.Intn(2) == 0, Wrapper: sitemodel.Wrappers[r.Intn(len(sitemodel.Wrappers))]}
